@@ -619,7 +619,9 @@ class C20(Property):
             if len({len(np.atleast_1d(r["position"])) for r in recs}) == 1:
                 bb = E.bbox
                 got_lo, got_hi = np.asarray(bb.pos, float), np.asarray(bb.pos, float) + np.asarray(bb.size, float)
-                if not (np.allclose(got_lo, lo, rtol=1e-12, atol=1e-12) and np.allclose(got_hi, hi, rtol=1e-12, atol=1e-12)):
+                # (a cuboid stores its lower corner and its size: the upper corner carries the rounding of coordinates of that magnitude)
+                atol_bb = 1e-12 + 16 * np.finfo(float).eps * float(max(np.abs(lo).max(), np.abs(hi).max()))
+                if not (np.allclose(got_lo, lo, rtol=1e-12, atol=atol_bb) and np.allclose(got_hi, hi, rtol=1e-12, atol=atol_bb)):
                     fail("bbox", f"bbox [{got_lo},{got_hi}] expected [{lo},{hi}]")
         if n and len({(e[0], str(e[1])) for e in M}) == 1:
             data = E.data
